@@ -16,6 +16,8 @@ INVARIANTS
   Inv_C14_Owner
   Inv_C14_Supply
   Inv_X14_Collection
+  Inv_C14_HistOwner
+  Inv_C14_HistSupply
 PROPERTIES
   Act_C14_ActOnlyOwner
   Act_C14_OthersUntouched
@@ -23,6 +25,8 @@ PROPERTIES
   Act_C14_UpdateRestricted
   Act_C14_ClassHandover
   Act_C14_Ids
+  Act_C14_HistAct
+  Act_C14_HistRestricted
   Act_Rejected_NoEffect
   Act_X14_Recipient
   Act_X14_Fidelity
